@@ -11,6 +11,8 @@ mod error;
 pub mod parser;
 mod traits;
 mod types;
+#[cfg(h263_rs_verif)]
+pub mod verif_hooks;
 
 pub use decoder::{DecoderOption, H263State};
 pub use error::{Error, Result};
